@@ -107,6 +107,15 @@ fn handle_client(stream: TcpStream, dbs: Arc<Databases>) {
                                 _ => log::debug!("Error on sending and error request"),
                             }
                         }
+                        // A write refused for its version is an error as well, like on the
+                        // other transports, not an ok
+                        Response::VersionError { msg, .. } => {
+                            log::debug!("Version error: {}", msg);
+                            match client.sender.try_send(format!("error {} \n", msg)) {
+                                Ok(_) => (),
+                                _ => log::debug!("Error on sending and error request"),
+                            }
+                        }
                         _ => match client.sender.try_send(format!("ok \n")) {
                             Ok(_) => log::debug!("Success processed"),
                             _ => log::debug!("Success processed! error on sender"),
